@@ -87,7 +87,14 @@ func runGuess(content []byte, l *layout) (snap, goroot, gopaths, gomods string) 
 			snap = "PANIC:" + strings.ReplaceAll(fmt.Sprint(e), "\t", " ")
 		}
 	}()
-	opts := &stack.Opts{LocalGOROOT: l.localGoroot, LocalGOPATHs: l.localGopaths, GuessPaths: true}
+	gpCopy := append([]string{}, l.localGopaths...)
+	opts := &stack.Opts{LocalGOROOT: l.localGoroot, LocalGOPATHs: gpCopy, GuessPaths: true}
+	defer func() {
+		// the caller's options value is shared between scans: it must come back untouched
+		if strings.Join(gpCopy, "\x00") != strings.Join(l.localGopaths, "\x00") && !strings.HasPrefix(snap, "PANIC") {
+			snap = "OPTS-MODIFIED"
+		}
+	}()
 	rd := &scriptedReader{rest: append([]byte{}, content...), final: finalOf("eof"), w: &recWriter{}}
 	s, _, _ := stack.ScanSnapshot(rd, rd.w, opts)
 	if s == nil {
@@ -192,6 +199,18 @@ func opGuess(r *rand.Rand, n int, tier string, seed int64) {
 				rg = lg
 			}
 			l.localGopaths = append(l.localGopaths, lg)
+			rgMod := rg
+			if r.Intn(3) == 0 {
+				rgMod = fmt.Sprintf("/ci/cache%d", g) // the module cache was at another remote root than src/
+			}
+			if r.Intn(4) == 0 {
+				// a vendored copy whose path tail also exists at the top of the same GOPATH
+				f := fname()
+				relV := fmt.Sprintf("example.com/app%d/vendor/example.com/lib%d/%s", g, g, f)
+				l.add(lg+"/src/"+relV, "package x\n")
+				l.add(fmt.Sprintf("%s/src/example.com/lib%d/%s", lg, g, f), "package x\n")
+				frames = append(frames, gfile{remote: rg + "/src/" + relV, local: lg + "/src/" + relV, rel: relV, imp: fmt.Sprintf("example.com/app%d/vendor/example.com/lib%d", g, g), class: stack.GOPATH, pkg: "lib", name: "V"})
+			}
 			for k := 0; k < 1+r.Intn(3); k++ {
 				f := fname()
 				if r.Intn(2) == 0 {
@@ -206,7 +225,7 @@ func opGuess(r *rand.Rand, n int, tier string, seed int64) {
 				} else {
 					pkg := modPkgs[r.Intn(len(modPkgs))]
 					rel := fmt.Sprintf("%s/g%d/%s", pkg, g, f)
-					gf := gfile{remote: rg + "/pkg/mod/" + rel, rel: rel, imp: fmt.Sprintf("%s/g%d", pkg, g), class: stack.GoPkg, pkg: "pkg", name: "H"}
+					gf := gfile{remote: rgMod + "/pkg/mod/" + rel, rel: rel, imp: fmt.Sprintf("%s/g%d", pkg, g), class: stack.GoPkg, pkg: "pkg", name: "H"}
 					if r.Intn(6) != 0 {
 						gf.local = lg + "/pkg/mod/" + rel
 						l.add(gf.local, "package x\n")
